@@ -158,7 +158,15 @@ def run_lines(exe, lines, cwd=None, env=None):
     e = dict(os.environ)
     if env:
         e.update(env)
-    r = subprocess.run([exe], input=data, stdout=subprocess.PIPE, stderr=subprocess.PIPE, cwd=cwd, env=e)
+    for attempt in range(60):
+        try:
+            r = subprocess.run([exe], input=data, stdout=subprocess.PIPE, stderr=subprocess.PIPE, cwd=cwd, env=e)
+            break
+        except (FileNotFoundError, PermissionError, OSError):
+            # the driver is being relinked by a concurrent `lake build` (another check running at the same time)
+            if attempt == 59:
+                raise
+            time.sleep(1)
     out = r.stdout.decode("utf-8", "replace").splitlines()
     if len(out) != len(lines):
         raise RuntimeError("%s answered %d lines for %d requests (rc=%s, stderr=%s)" %
